@@ -2,6 +2,7 @@ SPECIFICATION Spec
 CONSTANTS
   L = 2
   MaxReq = 1
+  FreeAtReleasedPage = FALSE
   ParentBitOnlyOnExactFit = TRUE
 INVARIANTS NoDoubleHandOut
 CHECK_DEADLOCK FALSE
